@@ -316,6 +316,18 @@ Definition sop_of_sx (o : sx) : sop sx := if Z.eqb (sx_Z (sx_nth 0 o)) 9 then SS
 Definition run_saves (ops : list sx) (rm sm : nat) : (store * owners) * fstate :=
   save_run hstep (want_files rm sm) sub_names (map sop_of_sx ops) (empty_store, no_owners) (mkfs [] []).
 
+(* an item whose public identifier reads as a temporary identifier of its own kind cannot be looked
+   up by that identifier (the lookup goes to the handle the number names) *)
+Definition is_temp (k : kind) (id : str) : bool := match temp_resolve k id with Some _ => true | None => false end.
+Definition shadowed_id (s : dstore) : bool :=
+  existsb (is_temp KRes) (map (fun p => jr_id (snd p)) (live (st_ress s)))
+  || existsb (is_temp KSet) (map (fun p => js_id (snd p)) (live (st_sets s)))
+  || existsb (is_temp KAnn) (flat_map (fun p => opt_list (ja_id (snd p))) (live (st_anns s)))
+  || existsb (fun p => existsb (is_temp KKey) (flat_map opt_list (js_keys (snd p)))
+                       || existsb (is_temp KData) (flat_map (fun o => match o with Some it => opt_list (jx_id it) | None => [] end)
+                                                            (js_data (snd p))))
+             (live (st_sets s)).
+
 (** * the run *)
 Definition sx_enc (d : json * files) : sx := L [nsx_of_json (fst d); sx_files (snd d)].
 
@@ -326,9 +338,9 @@ Definition run_C05 (x : sx) : sx :=
   let '((s0, ow), st0) := if hist then run_saves (sx_list (sx_nth 1 x)) rm sm
                           else ((empty_store, no_owners), mkfs [] []) in
   let s := if hist then view s0 rm sm else dstore_of_sx (sx_nth 1 x) in
-  let wf := triple (of_bool (wf_dstore s)) (A 1) 0 in
   (* a sub-store whose items do not all come before the later documents' items is reordered by loading *)
-  let kn := if arranged s ow then 0 else 1 in
+  let kn := if negb (arranged s ow) then 1 else if has_reserved_id s then 2 else 0 in
+  let wf := triple (of_bool (wf_dstore s)) (A 1) (if has_reserved_id s then 2 else 0) in
   match canon s, encode_o s ow with
   | Some c, Some d =>
       (* the final save: a literal store is new (every stand-off member is flagged) *)
@@ -352,7 +364,7 @@ Definition run_C05 (x : sx) : sx :=
                    | None => (false, false)
                    end in
       L [wf; triple o o 0; triple t t 0; triple t t 0; triple f fspec 0; triple back o kn; triple lay lay 0;
-         triple (L [of_bool (sx_eqb back o); of_bool (fst again); of_bool (fst again); of_bool (snd again)])
+         triple (L [of_bool (sx_eqb back o && negb (shadowed_id s)); of_bool (fst again); of_bool (fst again); of_bool (snd again)])
                 (L [A 1; A 1; A 1; A 1]) kn]
   | _, _ => L [wf; triple (A 0) (A 0) 0]
   end.
